@@ -719,6 +719,10 @@ class World:
                 self.trusted_used.add('iteration over an opaque iterable: '
                                       'a finite uninterpreted sequence')
                 it.calls.append(('iter', (v,), None))
+                if S.FIXED_SEQ_LEN[0] is not None:
+                    # refutation mode: an iterable of that many items
+                    it.path.assume(n == S.FIXED_SEQ_LEN[0])
+                    n = z3.IntVal(S.FIXED_SEQ_LEN[0])
                 q = SSeq(n, arr, TVal, kind='tuple')
                 return IterSpec(q.length, lambda k: q.get(k), source=q)
         raise Unsupported('iteration over %r' % (v,))
